@@ -12,6 +12,8 @@ def key_of(clause, label, prog, tr, l):
     r = tr[0]
     if clause == "handler_running_after_run_ended" and r["label"] == "retry_policy_raises":
         return "obs:handler_running_after_run_ended:engine_error_without_terminal_event"
+    if clause == "handler_running_after_run_ended" and r.get("aborted_during_terminal_write"):
+        return "obs:handler_running_after_run_ended:idle_release_aborts_the_loop_inside_the_status_write_backoff"
     return "obs:" + clause
 
 
@@ -20,3 +22,6 @@ def run(chk):
     sv.judge(chk, "C15", cases, key_of, lambda c: "%s/faults=%d/%s" % (c["label"], c["faults"], c["store"]),
              lambda tr: tr[0]["run_ended"])
     sv.design(chk, "HandlerStatus", ["design"], {"ascoded": "Inv_StatusMatchesOutcome"})
+    # the whole stack: on the model of the code as it is, the idle release can abort the loop inside its terminal status
+    # write (recorded finding); the design variant is checked by C26/C36
+    sv.design(chk, "ServerStack", [], {"ascoded_status": "Inv_StatusMatchesOutcome"})
